@@ -431,6 +431,15 @@ func (g *G) union(parent reflect.Value, ut reflect.Type, e *yang.Entry) (reflect
 		if i := strings.Index(e.Path()[1:], "/"); i >= 0 {
 			cands = append(cands, e.Path()[1+i:])
 		}
+		// ... and without the choice and case nodes on the way (they are not data nodes)
+		var names []string
+		for x := e; x != nil && x.Parent != nil; x = x.Parent {
+			if x.IsChoice() || x.IsCase() {
+				continue
+			}
+			names = append([]string{x.Name}, names...)
+		}
+		cands = append(cands, "/"+strings.Join(names, "/"))
 		for _, c := range cands {
 			if ts := m.MapIndex(reflect.ValueOf(c)); ts.IsValid() {
 				for i := 0; i < ts.Len(); i++ {
